@@ -87,6 +87,7 @@ COMB = {
     "merge": lambda s: reactivex.merge(*s),
     "merge_all": lambda s: reactivex.of(*range(len(s))).pipe(ops.map(lambda i: s[i]), ops.merge_all()),
     "flat_map": lambda s: reactivex.of(*range(len(s))).pipe(ops.flat_map(lambda i: s[i])),
+    "merge_max": lambda s: reactivex.of(*range(len(s))).pipe(ops.map(lambda i: s[i]), ops.merge(max_concurrent=len(s))),
     "zip": lambda s: reactivex.zip(*s),
     "combine_latest": lambda s: reactivex.combine_latest(*s),
     "with_latest_from": lambda s: s[0].pipe(ops.with_latest_from(*s[1:])),
